@@ -287,6 +287,9 @@ func loadFindings(dir string) []finding {
 
 // Finish writes the evidence file, prints KNOWN-FINDING / VIOLATION lines and returns the exit code.
 func (r *Run) Finish(level string) int {
+	if r.IsShardChild() {
+		return r.finishShard()
+	}
 	r.mu.Lock()
 	defer r.mu.Unlock()
 	known := map[string]string{}
